@@ -54,7 +54,15 @@ def run_hy(argv, stdin_text="", cwd=None, timeout=60.0):
                     print(c, file=sys.stderr)
                     status = 1
             except BaseException:
-                traceback.print_exc()
+                # like the interpreter: the uncaught exception goes to sys.excepthook (which the program may have replaced)
+                t, v, tb = sys.exc_info()
+                try:
+                    sys.excepthook(t, v, tb)
+                except BaseException:
+                    print("Error in sys.excepthook:", file=sys.stderr)
+                    traceback.print_exc()
+                    print("\nOriginal exception was:", file=sys.stderr)
+                    traceback.print_exception(t, v, tb)
                 status = 1
             try:
                 sys.stdout.flush()
